@@ -55,7 +55,10 @@ package proxy
 //@
 //@ // ---- C08: forwarding headers ---------------------------------------------------------------------------
 //@ // scheme of the client's connection when the client sent neither X-Forwarded-Proto nor Forwarded
-//@ spec fun connScheme(r *http.Request) string = hget(r.Header, "Upgrade") == "websocket" ? (r.TLS != nil ? "wss" : "ws") : (r.TLS != nil ? "https" : "http")
+//@ // the values of the Upgrade header for which ServeHTTP hands the request to the websocket tunnel
+//@ spec fun wsUpgrade(u string) bool = u == "websocket" || u == "Websocket"
+//@
+//@ spec fun connScheme(r *http.Request) string = wsUpgrade(hget(r.Header, "Upgrade")) ? (r.TLS != nil ? "wss" : "ws") : (r.TLS != nil ? "https" : "http")
 //@
 //@ // the value of a parameter: the text up to the next ';'
 //@ spec fun fwdProto(rest string) string = indexByte(rest, ';') >= 0 ? rest[:indexByte(rest, ';')] : rest
@@ -76,11 +79,20 @@ package proxy
 //@   props C08
 //@   assigns nothing
 //@   ensures nopanic
-//@   ensures r != nil && strings.Index(r.Host, ":") > 0 && strings.Index(r.Host, ":") < len(r.Host)-1 ==> result == r.Host[strings.Index(r.Host, ":")+1:]
-//@   ensures r != nil && !(strings.Index(r.Host, ":") > 0 && strings.Index(r.Host, ":") < len(r.Host)-1) ==> result == (r.TLS != nil ? "443" : "80")
+//@   // the port the client asked for: the port of the Host header if it has one (also for an IPv6 literal), else the
+//@   // default port of the connection
+//@   ensures r != nil && splitErr(r.Host) == nil && splitPort(r.Host) != "" ==> result == splitPort(r.Host)
+//@   ensures r != nil && !(splitErr(r.Host) == nil && splitPort(r.Host) != "") ==> result == (r.TLS != nil ? "443" : "80")
 //@
 //@ // the header names fabio manages itself; the configurable client-ip and tls header names must not collide with them
 //@ spec fun managedKey(k string) bool = k == "X-Real-Ip" || k == "X-Forwarded-For" || k == "X-Forwarded-Proto" || k == "X-Forwarded-Port" || k == "X-Forwarded-Host" || k == "X-Forwarded-Prefix" || k == "Forwarded" || k == "Upgrade"
+//@
+//@ func isWebsocket
+//@   props C08 C07
+//@   requires r != nil
+//@   assigns nothing
+//@   ensures nopanic
+//@   ensures result == wsUpgrade(hget(r.Header, "Upgrade"))
 //@
 //@ func addHeaders
 //@   props C08
@@ -97,6 +109,9 @@ package proxy
 //@   ensures forall h http.Header :: h != r.Header ==> hdr1[h] == old(hdr1[h]) && hdrHas[h] == old(hdrHas[h])
 //@   // the configured client-ip header carries the real peer address whatever the client sent
 //@   ensures result == nil && cfg.ClientIPHeader != "" && cfg.ClientIPHeader != "X-Forwarded-For" && cfg.ClientIPHeader != "X-Real-Ip" ==> hget(r.Header, cfg.ClientIPHeader) == splitHost(r.RemoteAddr)
+//@   // websocket requests bypass the reverse proxy (which appends the peer to X-Forwarded-For for everything else): the peer
+//@   // address is appended here, as the last element, for every request that ServeHTTP sends down the websocket tunnel
+//@   ensures result == nil && wsUpgrade(old(hget(r.Header, "Upgrade"))) && (!old(hasKey(r.Header, "X-Forwarded-For")) || old(len(r.Header["X-Forwarded-For"])) > 0) ==> hget(r.Header, "X-Forwarded-For") == (old(len(r.Header["X-Forwarded-For"])) > 0 ? joinSpec(old(r.Header["X-Forwarded-For"]), ", ", old(len(r.Header["X-Forwarded-For"]))) + ", " + splitHost(r.RemoteAddr) : splitHost(r.RemoteAddr))
 //@   // X-Real-Ip: the client's value if it sent one, else the peer address
 //@   ensures result == nil ==> hget(r.Header, "X-Real-Ip") == (old(hget(r.Header, "X-Real-Ip")) != "" ? old(hget(r.Header, "X-Real-Ip")) : splitHost(r.RemoteAddr))
 //@   // the TLS header is present with the configured value exactly on TLS connections
@@ -109,6 +124,7 @@ package proxy
 //@   ensures result == nil && old(hget(r.Header, "X-Forwarded-Host")) == "" ==> hget(r.Header, "X-Forwarded-Host") == r.Host
 //@   ensures result == nil && old(hget(r.Header, "X-Forwarded-Port")) != "" ==> hget(r.Header, "X-Forwarded-Port") == old(hget(r.Header, "X-Forwarded-Port"))
 //@   ensures result == nil ==> hget(r.Header, "Forwarded") != ""
+//@   at "r.Header.Set(\"X-Forwarded-For\", clientIP)" assert hget(r.Header, "X-Forwarded-For") == clientIP && clientIP == (len(prior) > 0 ? joinSpec(prior, ", ", len(prior)) + ", " + remoteIP : remoteIP)
 //@   at "proto := scheme(r)" assert (cfg.ClientIPHeader != "" && cfg.ClientIPHeader != "X-Forwarded-For" && cfg.ClientIPHeader != "X-Real-Ip" ==> hget(r.Header, cfg.ClientIPHeader) == remoteIP) && remoteIP == splitHost(r.RemoteAddr)
 //@   at "fwd := r.Header.Get(" assert cfg.ClientIPHeader != "" && cfg.ClientIPHeader != "X-Forwarded-For" && cfg.ClientIPHeader != "X-Real-Ip" ==> hget(r.Header, cfg.ClientIPHeader) == remoteIP
 //@   at "r.Header.Set(\"Forwarded\", fwd)" assert cfg.ClientIPHeader != "" && cfg.ClientIPHeader != "X-Forwarded-For" && cfg.ClientIPHeader != "X-Real-Ip" ==> hget(r.Header, cfg.ClientIPHeader) == remoteIP
